@@ -24,7 +24,7 @@ RULE_TEXT = ('runs = deterministic sweep over every (phase step x position x fau
              'set of disturbance kinds executed).')
 REACH_PROBES = ['keep', 'no_keep', 'sandbox_created', 'no_sandbox', 'ended_by_fault_with_sandbox', 'ended_pass',
                 'cd_executed', 'env_executed', 'tmp_file_by_case', 'child_wrote_file', 'chmod_readonly',
-                'child_left_symlink', 'result_observed_after_act', 'result_observed_before_act', 'double_fault', 'keep_after_failure',
+                'child_left_symlink', 'child_left_odd_entries', 'result_observed_after_act', 'result_observed_before_act', 'double_fault', 'keep_after_failure',
                 'cwd_in_tmp_at_end']
 
 PFX = casegen.PREFIX
@@ -33,7 +33,7 @@ PFX = casegen.PREFIX
 def _disturbers(g, phase, n, dirs):
     """A random disturbing item for `phase`; n = unique counter."""
     menu = ['file_tmp', 'file_act', 'file_cwd', 'dir_cd', 'cd_tmp', 'cd_act', 'env', 'child_write', 'child_chmod',
-            'child_symlink']
+            'child_symlink', 'child_odd']
     if phase == 'setup':
         menu += ['unenv', 'env', 'dir_cd']
     k = g.choice(menu)
@@ -59,6 +59,22 @@ def _disturbers(g, phase, n, dirs):
         return [{'k': 'probe', 'id': ident, 'form': g.choice(['%', 'run', '$']),
                  'fx': [['mk', '$CWD', 'k%d.txt' % n]],
                  'beh': {'actions': [{'op': 'write_file', 'path': '$CWD/k%d.txt' % n, 'text': 'k'}]}}]
+    if k == 'child_odd':
+        # other things a child can leave behind: a FIFO, names with spaces / leading dash / non-ASCII, a deep tree
+        ident = '%so%d' % (PFX[phase], n)
+        where = g.choice(['act', 'tmp'])
+        kind = g.choice(['fifo', 'name', 'deep'])
+        if kind == 'fifo':
+            name = 'fifo%d' % n
+            acts = [{'op': 'mkfifo', 'path': '$SBX/%s/%s' % (where, name)}]
+        elif kind == 'name':
+            name = g.choice(['-rf %d', 'sp ace %d', 'n\u00e9me-%d', '.hidden%d']) % n
+            acts = [{'op': 'write_file', 'path': '$SBX/%s/%s' % (where, name), 'text': 'x'}]
+        else:
+            name = 'deep%d' % n
+            acts = [{'op': 'write_file', 'path': '$SBX/%s/%s/a/b/c/d/e/f.txt' % (where, name), 'text': 'x'},
+                    {'op': 'chmod', 'path': '$SBX/%s/%s/a/b' % (where, name), 'mode': 0o500}]
+        return [{'k': 'probe', 'id': ident, 'form': '%', 'fx': [['mk', where, name], ['odd']], 'beh': {'actions': acts}}]
     if k == 'child_symlink':
         ident = '%sy%d' % (PFX[phase], n)
         where = g.choice(['act', 'tmp'])
@@ -291,6 +307,8 @@ def _model(plan, hist):
                 st['kinds'].add('chmod')
             elif fx[0] == 'symlink':
                 st['kinds'].add('symlink')
+            elif fx[0] == 'odd':
+                st['kinds'].add('odd')
     return expect, st, {'primary': primary, 'ploc': ploc, 'has_atc': has_atc}
 
 
@@ -308,7 +326,8 @@ def _probes(plan, hist):
         pr['ended_pass'] = 1
     for k, name in (('cd', 'cd_executed'), ('env', 'env_executed'), ('mk_tmp', 'tmp_file_by_case'),
                     ('mk_act_child', 'child_wrote_file'), ('mk_tmp_child', 'child_wrote_file'),
-                    ('chmod', 'chmod_readonly'), ('symlink', 'child_left_symlink')):
+                    ('chmod', 'chmod_readonly'), ('symlink', 'child_left_symlink'),
+                    ('odd', 'child_left_odd_entries')):
         if k in st['kinds']:
             pr[name] = 1
     for e in hist['events']:
